@@ -589,13 +589,22 @@ def anorm(node, fn=None):
     if fn is None:
         return norm(node)
     locals_ = set(alpha_map(fn))
+    # parameters are named by position (A1, A2, ...; self/cls keep their names)
+    mapping = {}
+    pos = 0
+    for prm in func_params(fn):
+        if prm in ('self', 'cls'):
+            continue
+        pos += 1
+        mapping[prm] = 'A%d' % pos
+    locals_ |= set(mapping)
     if not locals_:
         return norm(node)
-    mapping = {}
+    n_params = len(mapping)
 
     def placeholder(name):
         if name not in mapping:
-            mapping[name] = 'L%d' % (len(mapping) + 1)
+            mapping[name] = 'L%d' % (len(mapping) - n_params + 1)
         return mapping[name]
 
     def clone(n):
